@@ -57,6 +57,11 @@ func (t *Transaction) IsRollback() bool {
 	return t.isRollback
 }
 
+// isApplied returns true once the transaction was applied and waits for its confirmation (the rollback timer is running).
+func (t *Transaction) isApplied() bool {
+	return t.timer != nil && t.timer.IsStarted()
+}
+
 func (t *Transaction) Confirm() error {
 	if t.timer == nil {
 		return fmt.Errorf("no ongoing transaction")
